@@ -132,9 +132,9 @@ Qed.
 
 (* the three F11 schedules on the REPAIRED buffered code (fx = true; the re-check adds steps): nobody is left asleep *)
 Definition f11_fixed_behaviour_stmt : Prop :=
-  (exists s, brun true 1 (b_init f11a_progs 1000) (thr [1;1;1;1;1;1;1; 1;1;1;1;1; 2;2;2; 1;1;1;1;1; 1;1;1;1;1;1;1]%nat) = Some s /\
+  (exists s, brun true 1 (b_init f11a_progs 1000) (thr [1;1;1;1;1;1;1; 1;1;1;1;1; 2;2;2; 1;1;1;1;1; 1;1;1;1;1;1]%nat) = Some s /\
              b_done s 1%nat = true /\ b_done s 2%nat = true /\ b_sent_true s (1, 1)%nat = true) /\
-  (exists s, brun true 1 (b_init f11b_progs 1000) (thr [1;1;1;1; 2;2;2;2;2;2;2; 1;1;1;1;1; 1;1;1]%nat) = Some s /\
+  (exists s, brun true 1 (b_init f11b_progs 1000) (thr [1;1;1;1; 2;2;2;2;2;2;2; 1;1;1;1;1; 1;1]%nat) = Some s /\
              b_done s 1%nat = true /\ b_popped s = [(2, 0)%nat]) /\
   (exists s, brun true 1 (b_init f11c_progs 1000) (thr [1;1;1;1; 2;2;2;2;2;2; 1;1;1; 1;1]%nat) = Some s /\
              b_done s 1%nat = true /\ b_closed s = true).
